@@ -136,9 +136,47 @@ def pair_program(rng):
         A = [N("case", greedy=False, clauses=[N("clause", preds=[lead], body=[N("match", p=p)], prio=None),
                                                N("clause", preds=[N("lit", bs=b"~", form="s")], body=[], prio=None)])]
         tail = gen.tail_open(sem)
-    pb, semb = anypat()
-    B = [N("match", p=pb)]
-    amb = tail & (set(rx.first(semb)) - {rx.END})
+    def bpat():
+        # what follows may start with an inverted class / wildcard: those reach the join through Else transitions
+        if rng.random() < 0.45:
+            items = [("ch", rng.choice(ALPHA)) for _ in range(rng.randrange(1, 3))]
+            t = rng.choice([("set", items, True), ("set", items, True), ("any",), ("seq", [("set", items, True), ("ch", rng.choice(ALPHA))])])
+            return N("rx", tree=t, binary=False), rx.to_sem(t)
+        return anypat()
+    kindb = rng.choice(["match", "if-else", "if-else", "if", "if", "optional", "case"])
+    firsts = set()
+    if kindb == "match":
+        pb, semb = bpat()
+        B = [N("match", p=pb)]
+        firsts = set(rx.first(semb))
+    elif kindb == "if-else":
+        p1, s1 = bpat()
+        p2, s2 = bpat()
+        B = [N("if", branches=[(N("bin", op="==", a=N("var", name="i0"), b=N("num", v=1, text="1")), [N("match", p=p1)])], orelse=[N("match", p=p2)])]
+        firsts = set(rx.first(s1)) | set(rx.first(s2))
+    elif kindb == "if":
+        p1, s1 = bpat()
+        p2, s2 = bpat()
+        if gen.tail_open(s1) & (set(rx.first(s2)) - {rx.END}):
+            return None
+        B = [N("if", branches=[(N("bin", op="==", a=N("var", name="i0"), b=N("num", v=1, text="1")), [N("match", p=p1)])], orelse=None), N("match", p=p2)]
+        firsts = set(rx.first(s1)) | set(rx.first(s2))
+    elif kindb == "optional":
+        p1, s1 = bpat()
+        p2, s2 = bpat()
+        if ((set(rx.first(s1)) | gen.tail_open(s1)) & (set(rx.first(s2)) - {rx.END})):
+            return None
+        B = [N("optional", body=[N("match", p=p1)]), N("match", p=p2)]
+        firsts = set(rx.first(s1)) | set(rx.first(s2))
+    else:
+        p1, s1 = bpat()
+        p2, s2 = bpat()
+        if clause_ambiguity([(0, s1, 0), (1, s2, 0)], False) is not None:
+            return None
+        B = [N("case", greedy=False, clauses=[N("clause", preds=[p1], body=[], prio=None), N("clause", preds=[p2], body=[], prio=None)])]
+        firsts = set(rx.first(s1)) | set(rx.first(s2))
+    shape = shape + "+" + kindb
+    amb = tail & (firsts - {rx.END})
     prog = N("prog", outs=outs, hooks=[], fcodes=[], ycodes=[], macros=[], body=A + B + [N("match", p=N("lit", bs=b"#", form="s"))], args=[])
     return prog, amb, shape
 
@@ -159,7 +197,7 @@ def run(ctx: Ctx):
     rng = ctx.rng
     quick = ctx.quick
     n_case = 250 if quick else 4000
-    n_pair = 250 if quick else 4000
+    n_pair = 500 if quick else 5000
     verdicts = {"ambiguous_rejected": 0, "unambiguous_accepted": 0, "unambiguous_rejected(over-rejection)": 0, "ambiguous_accepted": 0}
     accepted_unamb = []
     for i in range(n_case):
